@@ -216,6 +216,17 @@ def new_handlers_state(I=None):
     return st, Obj('H'), Obj('H.state')
 
 
+def unknown_subcode(I):
+    """the sub code argument of the hooks: None for most commands; text when OctoPrint's queuing hook passes it on, an
+    integer when the offline stream processor passes the parser's own sub code"""
+    from .values import Choice
+    text = {('hook', 'subcode-is-text'): frozenset([True])}
+    number = {('hook', 'subcode-is-text'): frozenset([False])}
+    n = Num.sym('arg:subcode')
+    n.isint = True
+    return I.maybe(('null', 'arg:subcode'), Choice([(text, SStr('SUBCODE')), (number, n)]))
+
+
 def run_gcode(I, gcode, prep=None, subcode=None):
     """all abstract paths of GcodeHandlers.handleGcode(CMD, gcode) from a fully symbolic state"""
     st, H, S = new_handlers_state(I)
@@ -223,7 +234,7 @@ def run_gcode(I, gcode, prep=None, subcode=None):
         prep(I, st, H, S)
     cmd = SStr('CMD', nonempty=True)
     # the sub code OctoPrint passes along is unknown (None for most commands, an integer for G38.2 and the like)
-    sub = I.maybe(('null', 'arg:subcode'), Opaque('SUBCODE')) if subcode is None else subcode
+    sub = unknown_subcode(I) if subcode is None else subcode
     res = I.run_method(st, 'GcodeHandlers', 'handleGcode', H, [cmd, Str(gcode), sub])
     return [Path('handleGcode(%s)' % gcode, s, v, {'H': H, 'S': S}) for (s, v) in res]
 
